@@ -46,6 +46,15 @@ ChkSdpSeq  == c.t = "init" /\ \E t \in {6, 7} : \E n \in {0, 1, 2, 85, 86} :
               c' = [t |-> "sdp", e |-> SeqE(t, [i \in 1..n |-> IntE(1, 2, i)])]
 ChkSdpMixed == c.t = "init" /\
               c' = [t |-> "sdp", e |-> SeqE(6, <<IntE(1, 2, 256), SeqE(6, <<Txt(3, <<1, 17>>), IntE(1, 1, 3)>>), SeqE(7, <<>>), Txt(8, Pat(5, 1)), IntE(5, 0, 1)>>)]
+\* legal non-minimal size forms: every assignment of forms 5 / 6 / 7 to the explicit-size nodes of a few shapes
+WLeaf(i) == [idx |-> i, kids |-> <<>>]
+ChkSdpForms == c.t = "init" /\
+    \/ \E i \in 5..7 : \E n \in {0, 3, 255} : c' = [t |-> "sdpw", e |-> Txt(4, Pat(n, 2)), w |-> WLeaf(i)]
+    \/ \E i \in 6..7 : c' = [t |-> "sdpw", e |-> Txt(8, Pat(256, 2)), w |-> WLeaf(i)]
+    \/ \E i \in 5..7 : \E j \in 5..7 : \E k \in 5..7 : \E t \in {6, 7} :
+          c' = [t |-> "sdpw", e |-> SeqE(t, <<IntE(1, 2, 258), SeqE(6, <<Txt(4, Pat(2, 1)), IntE(1, 1, 3)>>)>>),
+                w |-> [idx |-> i, kids |-> <<WLeaf(0), [idx |-> j, kids |-> <<WLeaf(k), WLeaf(0)>>]>>]]
+    \/ \E i \in 5..7 : c' = [t |-> "sdpw", e |-> SeqE(6, <<>>), w |-> WLeaf(i)]
 ChkRfc   == c.t = "init" /\ \E ty \in {47, 99, 15, 67, 239} : \E pf \in 0..1 : \E n \in {0, 1, 2, 126, 127, 128, 129, 130, 255, 256} :
               \E dlci \in {0, 2, 63} : \E cr \in 0..1 :
               (ty # 239 => n = 0) /\ (ty = 239 /\ pf = 1 => n >= 1) /\
@@ -77,7 +86,7 @@ ChkAdPad == c.t = "init" /\ \E pad \in 1..3 :     \* zero padding after (and bet
 ChkUuid  == c.t = "init" /\ \E u \in {<<1, 17>>, <<255, 254>>, <<1, 17, 0, 0>>, <<4, 3, 2, 1>>, Pat(16, 5), BaseLow \o <<1, 17, 0, 0>>} :
               c' = [t |-> "uuid", u |-> u]
 
-Next == ChkEcfI \/ ChkEcfS \/ ChkBasic \/ ChkSdpLeaf \/ ChkSdpWide \/ ChkSdpText \/ ChkSdpNest \/ ChkSdpSeq \/ ChkSdpMixed \/ ChkRfc \/ ChkMcc \/ ChkPn \/ ChkMsc
+Next == ChkEcfI \/ ChkEcfS \/ ChkBasic \/ ChkSdpLeaf \/ ChkSdpWide \/ ChkSdpText \/ ChkSdpNest \/ ChkSdpSeq \/ ChkSdpMixed \/ ChkSdpForms \/ ChkRfc \/ ChkMcc \/ ChkPn \/ ChkMsc
         \/ ChkAvdtp \/ ChkAvctp \/ ChkAvc \/ ChkPass \/ ChkVendor \/ ChkRtp \/ ChkAd \/ ChkAdPad \/ ChkUuid
 Spec == Init /\ [][Next]_vars
 
@@ -109,6 +118,13 @@ RoundTrip ==
                                \* which size form: 1 octet up to 255, 2 up to 65535, then 4
                                /\ (c.e.t \in {4, 6, 7, 8} => LET n == Len(ElemBody(c.e)) IN
                                      b[1] % 8 = (IF n <= 255 THEN 5 ELSE IF n <= 65535 THEN 6 ELSE 7))
+      [] c.t = "sdpw"  -> /\ ElemInRange(c.e) /\ WidthsOk(c.e, c.w)
+                          /\ LET b == ElemSerW(c.e, c.w) IN
+                               /\ IsBytes(b) /\ ElemPar(b, 0) = <<c.e, Len(b)>>
+                               \* the minimal tree gives the canonical image, any other tree a longer one
+                               /\ ElemSerW(c.e, MinWidths(c.e)) = ElemSer(c.e)
+                               /\ (Len(b) = Len(ElemSer(c.e)) <=> b = ElemSer(c.e))
+                               /\ Len(b) >= Len(ElemSer(c.e))
       [] c.t = "rfc"   -> /\ RfInRange(c.r)
                           /\ LET b == RfSer(c.r) L == Len(c.r.info) - (IF HasCredit(c.r) THEN 1 ELSE 0) IN
                                /\ IsBytes(b) /\ RfPar(b) = c.r /\ RfWf(b)
